@@ -48,7 +48,7 @@ def build(tier: str) -> List[Cond]:
                     if tier == "quick" and tl == 4 and tps and tps[0] % 2:
                         continue
                     for qform in ("plain", "modstr", "modann"):
-                        if qform != "plain" and tier == "quick" and (tl > 3 or (qform == "modann" and tps and tps[0] != 0)):
+                        if qform != "plain" and tier == "quick" and (tl > 3 or (tl == 3 and ql == 2) or (qform == "modann" and tps and tps[0] != 0)):
                             continue
                         shape = dict(ntp=len(tps), qform=qform, **{f"tp{i}": v for i, v in enumerate(tps)})
                         conds.append(Cond(oid=f"coverage/t={tl}/q={ql}/tmods={','.join(map(str, tps)) or '-'}" + ("" if qform == "plain" else "/" + qform), clause="coverage marks/counts exactly the covered positions; percent coverage is the marked fraction",
@@ -60,7 +60,8 @@ def build(tier: str) -> List[Cond]:
 
 
 def run(tier: str, seed: int, only=None) -> Report:
-    conds = build(tier)
+    from ..ch import tier_conds
+    conds = tier_conds(build, tier, cap=350)
     if only:
         conds = [c for c in conds if only in c.oid]
     rep = Report(
